@@ -110,10 +110,10 @@ def discharge(obls, procs=None, second=False):
             n, r, b, t, info, ag = _work(it)
             out[n] = (r, b, t, info, ag)
         return out
-    ctx = mp.get_context("fork")
-    with ctx.Pool(procs) as pool:
-        for n, r, b, t, info, ag in pool.imap_unordered(_work, items, chunksize=1):
-            out[n] = (r, b, t, info, ag)
+    from .pool import robust_map
+    for n, r, b, t, info, ag in robust_map(_work, items, procs,
+                                           lambda it: (it[0], "unknown", "crash", 0.0, "worker process died three times", None)):
+        out[n] = (r, b, t, info, ag)
     return out
 
 
